@@ -24,6 +24,8 @@ pub trait VK: Hash + Eq + Clone + MemSize + Sized + 'static {
     fn k(&self) -> u16;
     fn kheap(&self) -> usize;
     fn tid(&self) -> u64;
+    /// how often this object has been produced by `Clone::clone` (if it can tell)
+    fn gen(&self) -> Option<u16> { None }
     fn name() -> &'static str;
 }
 
@@ -34,6 +36,7 @@ pub trait VV: Clone + MemSize + Sized + 'static {
     fn vheap(&self) -> usize;
     fn set_heap(&mut self, h: usize);
     fn tid(&self) -> u64;
+    fn gen(&self) -> Option<u16> { None }
     fn name() -> &'static str;
 }
 
@@ -42,11 +45,19 @@ pub trait VS: BuildHasher + Clone + 'static {
     fn name() -> &'static str;
 }
 
-/// Key without drop glue.
-#[derive(Clone, Copy, Debug)]
+/// Key without drop glue (but with a `Clone` of its own: `gen` counts how
+/// often the value has been cloned).
+#[derive(Debug)]
 pub struct PKey {
     pub k: u16,
     pub heap: u32,
+    pub gen: u16,
+}
+
+impl Clone for PKey {
+    fn clone(&self) -> PKey {
+        PKey { k: self.k, heap: self.heap, gen: self.gen + 1 }
+    }
 }
 
 impl Hash for PKey {
@@ -69,11 +80,19 @@ impl HeapSize for PKey {
     }
 }
 
-/// Value without drop glue; `tag` is unique per constructed value.
-#[derive(Clone, Copy, Debug)]
+/// Value without drop glue; `tag` is unique per constructed value, `gen`
+/// counts clones.
+#[derive(Debug)]
 pub struct PVal {
     pub tag: u64,
     pub heap: u32,
+    pub gen: u16,
+}
+
+impl Clone for PVal {
+    fn clone(&self) -> PVal {
+        PVal { tag: self.tag, heap: self.heap, gen: self.gen + 1 }
+    }
 }
 
 impl HeapSize for PVal {
@@ -84,10 +103,11 @@ impl HeapSize for PVal {
 
 impl VK for PKey {
     const TRACKED: bool = false;
-    fn make(k: u16, heap: usize) -> Self { PKey { k, heap: heap as u32 } }
+    fn make(k: u16, heap: usize) -> Self { PKey { k, heap: heap as u32, gen: 0 } }
     fn k(&self) -> u16 { self.k }
     fn kheap(&self) -> usize { self.heap as usize }
     fn tid(&self) -> u64 { 0 }
+    fn gen(&self) -> Option<u16> { Some(self.gen) }
     fn name() -> &'static str { "plainkey" }
 }
 
@@ -102,11 +122,12 @@ impl VK for TKey {
 
 impl VV for PVal {
     const TRACKED: bool = false;
-    fn make(tag: u64, heap: usize) -> Self { PVal { tag, heap: heap as u32 } }
+    fn make(tag: u64, heap: usize) -> Self { PVal { tag, heap: heap as u32, gen: 0 } }
     fn tag(&self) -> u64 { self.tag }
     fn vheap(&self) -> usize { self.heap as usize }
     fn set_heap(&mut self, h: usize) { self.heap = h as u32 }
     fn tid(&self) -> u64 { 0 }
+    fn gen(&self) -> Option<u16> { Some(self.gen) }
     fn name() -> &'static str { "plainval" }
 }
 
@@ -509,7 +530,7 @@ impl<K: VK, V: VV, S: VS> Mini<K, V, S> {
                                 },
                             }
                             self.model.order[i].vheap = new_vheap;
-                            self.model.order[i].size = new_size;
+                            self.model.set_size(i, new_size);
                             self.model.promote(i);
                             let ev = if grow { self.model.evict_to(limit) } else { vec![] };
                             self.expect_dropped(&ev, "evicted by mutate");
@@ -597,6 +618,14 @@ impl<K: VK, V: VV, S: VS> Mini<K, V, S> {
                     Err(e) => { self.fail(vec!["C14", "C07"], "clone-structure".into(), format!("clone has a broken structure: {}", e)); vec![] },
                 };
                 mk!(self, src == got || !self.fails.is_empty(), ["C14"], "clone-differs", "clone lists {:?}, source {:?}", brief(&got), brief(&src));
+                // own copies, made by Clone::clone
+                if self.fails.is_empty() {
+                    let gens_src: Vec<(Option<u16>, Option<u16>)> = self.c().iter().map(|(k, v)| (k.gen(), v.gen())).collect();
+                    let gens_cl: Vec<(Option<u16>, Option<u16>)> = cl.iter().map(|(k, v)| (k.gen(), v.gen())).collect();
+                    let ok = gens_src.iter().zip(&gens_cl).all(|(a, b)|
+                        a.0.map(|g| Some(g + 1) == b.0).unwrap_or(true) && a.1.map(|g| Some(g + 1) == b.1).unwrap_or(true));
+                    mk!(self, ok, ["C14"], "clone-not-cloned", "clone() did not produce its keys/values through Clone::clone (clone generations {:?} vs source {:?})", brief(&gens_cl), brief(&gens_src));
+                }
                 let (cs, cc) = (cl.current_size(), self.c().current_size());
                 mk!(self, cs == cc && cl.capacity() >= self.c().capacity(), ["C14"], "clone-scalars", "clone current_size {} vs {}, capacity {} vs {}", cs, cc, cl.capacity(), self.c().capacity());
                 if !self.fails.is_empty() {
